@@ -850,7 +850,7 @@ func c19TwinSerializers(p *an.Prog, r *an.Report) {
 }
 
 func C19(p *an.Prog, r *an.Report) {
-	r.Explanation = "Twin entry points are discovered from the type-checked program (an exported byte-consuming function that calls another exported function of its package with its own parameters and yields the same named structure; a whole-buffer constructor next to a streaming reader of the same structure) or named in small frozen tables (signature constructors, key-type payload encoders, KeyCertificate constructors, signed-data serializers, the three keys-and-cert readers). Wrappers are evaluated path-sensitively with the delegate call replaced by an assumption: if the delegate accepts, no path of the wrapper may reject or panic (W1); if it rejects, no path may report success (W2); on success the value and remainder returned are the delegate's results (W3, dataflow through named results and local copies). Independent twins are compared as siblings: reject regions over the input length and over the type-code parameter extracted by interval partitioning must coincide (X1, S1); every key-type payload encoder must place BE16(signing) at [0,2) and BE16(crypto) at [2,4) (K1); NewKeyCertificate must apply exactly the steps of KeyCertificateFromCertificate after obtaining the certificate (C1); signed-data serializers must emit the fields of the full serializer in the same order minus the signature (T1); the three keys-and-cert readers and the writer must use the same affine key-block offsets for all 20 supported key-size pairs (R1). What is decided is the structural agreement of the twins' guards, delegation and layouts; equality of the produced bytes for every concrete input is implied only where the twins share the code that produces them (wrappers, shared core) and is otherwise not claimed. R1 also requires every keys-and-cert reader to parse the certificate from data[384:] unbounded with no fixed cut after the key block."
+	r.Explanation = "Twin entry points are discovered from the type-checked program (an exported byte-consuming function that calls another exported function of its package with its own parameters and yields the same named structure; a whole-buffer constructor next to a streaming reader of the same structure) or named in small frozen tables (signature constructors, key-type payload encoders, KeyCertificate constructors, signed-data serializers, the three keys-and-cert readers). Wrappers are evaluated path-sensitively with the delegate call replaced by an assumption: if the delegate accepts, no path of the wrapper may reject or panic (W1); if it rejects, no path may report success (W2); on success the value and remainder returned are the delegate's results (W3, dataflow through named results and local copies). Independent twins are compared as siblings: reject regions over the input length and over the type-code parameter extracted by interval partitioning must coincide (X1, S1); every key-type payload encoder must place BE16(signing) at [0,2) and BE16(crypto) at [2,4) (K1); NewKeyCertificate must apply exactly the steps of KeyCertificateFromCertificate after obtaining the certificate (C1); signed-data serializers must emit the fields of the full serializer in the same order minus the signature (T1); the three keys-and-cert readers and the writer must use the same affine key-block offsets for all 20 supported key-size pairs (R1). What is decided is the structural agreement of the twins' guards, delegation and layouts; equality of the produced bytes for every concrete input is implied only where the twins share the code that produces them (wrappers, shared core) and is otherwise not claimed. R1 also requires every keys-and-cert reader to parse the certificate from data[384:] unbounded with no fixed cut after the key block. P1: no package-level container is filled at run time, so no entry point's result can depend on earlier calls."
 	r.Rule = "W1-W3 per discovered wrapper pair; X1 per whole-buffer/streaming pair; S1 per sibling group and type parameter; K1 per key-type payload encoder; C1 shared-core step sequence; T1 per serializer pair; R1 keys-and-cert block offsets"
 	r.Trusted = append(r.Trusted, "Go SSA construction (golang.org/x/tools/go/ssa)", "the frozen twin tables in c19.go (group membership confirmed by reading)")
 	n := c19Wrappers(p, r)
